@@ -1,4 +1,5 @@
 import FmtModel.Engine
+import FmtModel.Py.Cmp
 /-
   FmtModel.Group — `FormatterGroup` / `make_group`: a dictionary member-name ↦ formatter class.
   `gen_format` rewrites `{name:fmt}` placeholders into named groups around the member's own
@@ -8,13 +9,22 @@ import FmtModel.Engine
 namespace Group
 open Py Engine
 
-/-- a formatter class with its value type hidden, plus the value order the group needs -/
+/-- what an object feeds to `hash`: a text (`hash(self.string)`, `hash(str(self.value))`) or a
+    comparison key (`hash(self.value)` of a version).  Equal sources give equal hashes. -/
+inductive HashSrc where
+  | text (s : Str)
+  | key (k : PV)
+  deriving DecidableEq
+
+/-- a formatter class with its value type hidden, plus the value order the group needs and the
+    source of its hash -/
 structure Member where
   name : Str
   Val : Type
   cls : Cls Val
   ltVal : Val → Val → Bool
   eqVal : Val → Val → Bool
+  hash : Obj → R HashSrc
 
 abbrev Decl := List Member
 
@@ -97,19 +107,34 @@ def format (d : Decl) (g : GObj) (fmt : Str) : R Str := do
       | .error e => .error e
     | _, _ => .error .grpValue) fmt
 
+/-- (lt, eq, gt) of two values of one member; `gt` is `functools.total_ordering`'s `not lt and not eq` -/
+def tri (m : Member) (x y : m.Val) : Bool × Bool × Bool :=
+  (m.ltVal x y, m.eqVal x y, !m.ltVal x y && !m.eqVal x y)
+
 /-- member-wise value comparison used by `__eq__`, `__lt__`, `__gt__` -/
 def cmpMember (m : Member) (a b : Obj) : R (Bool × Bool × Bool) := do
   let va ← m.cls.value a
   let vb ← m.cls.value b
-  let lt := m.ltVal va vb
-  let eq := m.eqVal va vb
-  pure (lt, eq, !lt && !eq)
+  pure (tri m va vb)
 
-def cmpAll (d : Decl) (a b : GObj) : R (List (Bool × Bool × Bool)) :=
-  d.mapM fun m =>
-    match alookup m.name a, alookup m.name b with
-    | some x, some y => cmpMember m x y
-    | _, _ => .error .pyKey
+/-- `hash(a) == hash(b)` as far as the model can tell: the two objects feed the same thing to `hash` -/
+def hashEq (m : Member) (a b : Obj) : R Bool := do
+  let ha ← m.hash a
+  let hb ← m.hash b
+  pure (decide (ha = hb))
+
+/-- the value of member `m` inside a group object -/
+def memVal (m : Member) (g : GObj) : R m.Val :=
+  match alookup m.name g with
+  | some o => m.cls.value o
+  | none => .error .pyKey
+
+def memTri (m : Member) (a b : GObj) : R (Bool × Bool × Bool) := do
+  let va ← memVal m a
+  let vb ← memVal m b
+  pure (tri m va vb)
+
+def cmpAll (d : Decl) (a b : GObj) : R (List (Bool × Bool × Bool)) := d.mapM fun m => memTri m a b
 
 /-- `a == b`: all members equal -/
 def eq (d : Decl) (a b : GObj) : R Bool := (cmpAll d a b).map fun l => l.all (·.2.1)
